@@ -14,6 +14,23 @@ from scipy.optimize import linprog
 HIGHS_OPTS = {"presolve": True, "primal_feasibility_tolerance": 1e-7, "dual_feasibility_tolerance": 1e-7}
 
 
+class tolerance:
+    """with tolerance(1e-9): ... - HiGHS feasibility tolerances for the solves inside (confirmation runs)."""
+
+    def __init__(self, t):
+        self.t = t
+
+    def __enter__(self):
+        self.saved = dict(HIGHS_OPTS)
+        HIGHS_OPTS["primal_feasibility_tolerance"] = self.t
+        HIGHS_OPTS["dual_feasibility_tolerance"] = self.t
+
+    def __exit__(self, *a):
+        HIGHS_OPTS.clear()
+        HIGHS_OPTS.update(self.saved)
+        return False
+
+
 def pulp_to_matrix(lp):
     vs = lp.variables()
     index = {id(v): i for i, v in enumerate(vs)}
